@@ -25,6 +25,7 @@ type c07World struct {
 	provs       []chain.Account
 	removedSeen bool // a plan-paid file was deleted or dropped and usage was read afterwards
 	repost      bool
+	nearPlanEnd bool
 	posted      []postedRef
 }
 
@@ -136,7 +137,7 @@ func (w *c07World) delete(signer chain.Account, ref postedRef) {
 
 func TestC07(t *testing.T) {
 	rec := ev.For("C07")
-	rec.Describe("stateful fork-mode histories (rapid state machine) by 3 owners and 2 providers: buy / upgrade / re-buy after expiry, plan-paid posts (Expires <= 0) and pay-once posts with sizes x replication across whatever ValidateBasic accepts (boundary values included), re-post of the same merkle in the same block, delete own / somebody else's / unknown files, real proofs, block advance through youth so that prover-less files are dropped by reward blocks, time advance through plan expiry. After every step, for every plan: SpaceUsed == sum of FileSize*MaxProofs over the owner's live files with Expires <= 0 (read through the by-owner index), 0 <= used <= available; a plan-paid post needs a live plan with room. Non-trivial = a plan-paid file was deleted or dropped and usage was checked afterwards; distinct = distinct traces.",
+	rec.Describe("stateful fork-mode histories (rapid state machine) by 3 owners and 2 providers: buy / upgrade / re-buy after expiry, plan-paid posts (Expires <= 0) and pay-once posts with sizes x replication across whatever ValidateBasic accepts (boundary values included), re-post of the same merkle in the same block, delete own / somebody else's / unknown files, real proofs, block advance through youth so that prover-less files are dropped by reward blocks, time advance through plan expiry and to within seconds / hours / a day of the end of a plan. After every step, for every plan: SpaceUsed == sum of FileSize*MaxProofs over the owner's live files with Expires <= 0 (read through the by-owner index), 0 <= used <= available; a plan-paid post needs a live plan with room. Non-trivial = a plan-paid file was deleted or dropped and usage was checked afterwards; distinct = distinct traces.",
 		"plan-paid means Expires <= 0 (the handler's own branch condition)")
 	c := chain.New(chain.GenesisOpts{NumAccounts: 3, Balance: sdk.NewCoins(sdk.NewInt64Coin("ujkl", 1_000_000_000_000_000)),
 		Faucet: sdk.NewCoins(sdk.NewInt64Coin("ujkl", 1_000_000_000_000))})
@@ -319,10 +320,31 @@ func TestC07(t *testing.T) {
 					w.logf("a reward block dropped file(s)")
 				}
 			},
+			// the clock moves to just before / just after the end of somebody's plan (within seconds, hours, a day)
+			"toPlanEnd": func(rt *rapid.T) {
+				plans := w.c.App.StorageKeeper.GetAllStoragePaymentInfo(w.f.Ctx)
+				if len(plans) == 0 {
+					rt.Skip()
+				}
+				pl := plans[rapid.IntRange(0, len(plans)-1).Draw(rt, "plan")]
+				delta := rapid.SampledFrom([]time.Duration{-time.Second, 0, time.Second, time.Hour, 24*time.Hour - time.Second, 24 * time.Hour, 25 * time.Hour}).Draw(rt, "afterEnd")
+				dt := pl.End.Add(delta).Sub(w.f.Time())
+				if dt <= 0 {
+					rt.Skip()
+				}
+				w.logf("the clock moves to the end of the plan of %s %+v", short(pl.Address), delta)
+				if sig, msg := w.nextBlock(dt, 0); sig != "" {
+					fail("C07/"+sig, msg)
+				}
+				w.nearPlanEnd = true
+			},
 			"": func(rt *rapid.T) { fail(w.invariant()) },
 		})
 		if w.repost {
 			rec.Count("histories-with-repost")
+		}
+		if w.nearPlanEnd {
+			rec.Count("histories-visiting-the-end-of-a-plan")
 		}
 		rec.Case(w.removedSeen, ev.Hash(w.trace...), func() interface{} { return w.trace })
 	})
